@@ -25,6 +25,8 @@ import (
 	"lunar/engine/metrics"
 	"lunar/engine/routing"
 	streamconfig "lunar/engine/streams/config"
+	"lunar/engine/streams/processors"
+	public_types "lunar/engine/streams/public-types"
 	lunar_context "lunar/engine/streams/lunar-context"
 	stream_types "lunar/engine/streams/types"
 	"lunar/engine/utils"
@@ -97,7 +99,110 @@ func handlerFlows() map[string]string {
 		"  response:\n" +
 		"    - from:\n        processor:\n          name: Teapot\n      to:\n        processor:\n          name: RespC\n" +
 		"    - from:\n        processor:\n          name: RespC\n      to:\n        stream:\n          name: globalStream\n          at: end\n"
-	return map[string]string{"flows/a.yaml": flowA, "flows/b.yaml": flowB, "flows/c.yaml": flowC}
+	files := map[string]string{"flows/a.yaml": flowA, "flows/b.yaml": flowB, "flows/c.yaml": flowC}
+	for host, dirs := range emitFlows {
+		name := "Emit" + strings.ToUpper(host[4:5])
+		files["flows/"+name+".yaml"] = emitFlowYAML(name, host, dirs)
+	}
+	return files
+}
+
+// VEmit: a scripted processor for flows mode.  It emits the configured action (any kind) with the configured
+// ProcessorIO type (the real retry processor, e.g., emits its RetryRequestAction with IO type "request"), so that the
+// REAL collection step of streams/stream.ExecuteFlow is exercised with every action kind in every position.
+const emitDef = `name: VEmit
+description: verification processor emitting a configured action
+exec: vemit.go
+parameters:
+  act:
+    type: string
+    description: percent-encoded rendering of the action to emit
+    required: true
+  io:
+    type: string
+    description: ProcessorIO type (request, response, any)
+    default: "any"
+    required: false
+output_streams:
+  - type: StreamTypeAny
+input_stream:
+  type: StreamTypeAny
+`
+
+type emitProc struct {
+	name string
+	act  string
+	io   public_types.StreamType
+}
+
+func (p *emitProc) GetName() string { return p.name }
+func (p *emitProc) GetRequirement() *stream_types.ProcessorRequirement {
+	return &stream_types.ProcessorRequirement{}
+}
+
+func (p *emitProc) Execute(_ string, apiStream public_types.APIStreamI) (stream_types.ProcessorIO, error) {
+	obj, ok := parseObj(strings.Fields(p.act)) // a FRESH action object per execution
+	io := stream_types.ProcessorIO{Type: p.io}
+	if !ok {
+		return io, fmt.Errorf("VEmit: bad action %q", p.act)
+	}
+	if apiStream.GetType() == public_types.StreamTypeRequest {
+		if a, isReq := obj.(actions.ReqLunarAction); isReq {
+			io.ReqAction = a
+		}
+	} else if a, isResp := obj.(actions.RespLunarAction); isResp {
+		io.RespAction = a
+	}
+	return io, nil
+}
+
+func emitFactory(md *stream_types.ProcessorMetaData) (stream_types.ProcessorI, error) {
+	p := &emitProc{name: md.Name, io: public_types.StreamTypeAny}
+	if v, ok := md.Parameters["act"]; ok && v.Value != nil {
+		p.act = proto.Dec(v.Value.GetString())
+	}
+	if v, ok := md.Parameters["io"]; ok && v.Value != nil {
+		switch v.Value.GetString() {
+		case "request":
+			p.io = public_types.StreamTypeRequest
+		case "response":
+			p.io = public_types.StreamTypeResponse
+		}
+	}
+	return p, nil
+}
+
+type emitSpec struct{ act, io string }
+
+// scripted flows: url prefix -> emitted actions per direction (what the processors produce, by construction)
+var emitFlows = map[string][2][]emitSpec{
+	"flowd.test": {
+		{{"modhdr h=x-first|one;x|1", "request"}, {"genreq h=x-gen|g;x|2 rm=content-length body=g", "request"}, {"modhdr h=x-after|a", "any"}},
+		{{"noop", "response"}, {"retry h=x-retry|r", "request"}, {"noop", "any"}},
+	},
+	"flowe.test": {
+		{{"modreq h=x-first|one host=h2 path=/p2 query=%e body=%e", "request"}, {"noop", "any"}, {"early status=429 body=slow h=retry-after|1", "request"}, {"modhdr h=x-after|a", "request"}},
+		{{"modresp h=x-resp|one body=b1 status=201", "response"}, {"retry h=x-retry|r", "request"}, {"modresp h=x-resp|uno;y|Y body=b2 status=404", "any"}},
+	},
+	"flowf.test": {
+		{{"genreq h=x-gen|g rm=_ body=%e", "any"}, {"genreq h=x-gen|g2;z|Z rm=a body=b", "request"}, {"modreq h=x-first|one host=%e path=%e query=q=1 body=%e", "request"}},
+		{{"retry h=x-retry|r", "request"}, {"retry h=x-retry|r2;z|Z", "any"}, {"noop", "response"}},
+	},
+}
+
+func emitFlowYAML(name, host string, dirs [2][]emitSpec) string {
+	var b strings.Builder
+	fmt.Fprintf(&b, "name: %s\nfilter:\n  url: %s/*\nprocessors:\n", name, host)
+	var names [2][]string
+	for d, list := range dirs {
+		for i, e := range list {
+			n := fmt.Sprintf("%s%c%d", name, "QS"[d], i)
+			names[d] = append(names[d], n)
+			fmt.Fprintf(&b, "  %s:\n    processor: VEmit\n    parameters:\n      - key: act\n        value: \"%s\"\n      - key: io\n        value: %s\n", n, proto.Enc(e.act), e.io)
+		}
+	}
+	b.WriteString("flow:\n  request:\n" + chain(names[0]) + "  response:\n" + chain(names[1]))
+	return b.String()
 }
 
 type handlerRig struct {
@@ -107,7 +212,10 @@ type handlerRig struct {
 }
 
 func newHandlerRig() (*handlerRig, error) {
-	e, err := engine.New(handlerFlows(), false)
+	e, err := engine.NewWith(handlerFlows(), engine.Options{
+		Defs:      map[string]string{"VEmit": emitDef},
+		Factories: map[string]processors.ProcessorFactory{"VEmit": emitFactory},
+	})
 	if err != nil {
 		return nil, err
 	}
@@ -185,6 +293,21 @@ func pathOf(url string) string {
 
 // producedBy runs the loaded flows directly (Stream.ExecuteFlow) on the message and renders the collected actions.
 func (r *handlerRig) producedBy(m hmsg, id string) []string {
+	if i := strings.IndexByte(m.url, '/'); i > 0 {
+		if dirs, scripted := emitFlows[m.url[:i]]; scripted {
+			// what the scripted processors produce, by construction (independent of the collection in ExecuteFlow)
+			d := 1
+			if m.isReq {
+				d = 0
+			}
+			var out []string
+			for _, e := range dirs[d] {
+				obj, _ := parseObj(strings.Fields(e.act))
+				out = append(out, fmtAction(obj))
+			}
+			return out
+		}
+	}
 	hs := headerString(m.hdrs)
 	var out []string
 	state := lunar_context.NewMemoryState[[]byte]()
